@@ -12,7 +12,7 @@
     x degree x monomial, against exact rational integrals.
 '''
 
-import itertools, json, os
+import itertools, json
 import numpy
 from .. import core
 from .. import c09_model as M
@@ -24,8 +24,9 @@ RULE = ('(a) base samples {gauss1,gauss2,bezier2,uniform2} on mesh.line(2)@X, me
         'gauss2 on two trimmed lines (Mosaic / WithChildren elements); operations mul/rmul(base sample in a free space), add/radd(plain sample on the same '
         'spaces)/addself, take_elements(every ordered selection without repetition of <=3 of the <=4 probe elements first/second/middle/last), '
         'subset(<=5 masks), zip(located sample in a free space, either side), custom index (4 permutations), rename_spaces(fresh/free/swap). '
-        'FULL = that alphabet, CORE = 1-3 representatives per operation kind. quick: all sequences FULL (depth 1) and CORE.CORE.CORE (depth<=3); '
-        'thorough: FULL.FULL, FULL.CORE.CORE and CORE.CORE.CORE. States are deduplicated on the (interned) sample object + model. '
+        'FULL = that alphabet, CORE = 1-2 representatives per operation kind. quick: all sequences FULL (depth 1) and CORE.CORE from all 16 bases, CORE.CORE.CORE '
+        'from 8 bases (one per mesh / points-per-element / kind of base sample); thorough: FULL.FULL and CORE.CORE.CORE from all 16 bases, FULL.CORE.CORE from the 8. '
+        'States are deduplicated on the (interned) sample object + model. '
         'non-trivial/distinct = distinct (model, nested sample type) reached by >=1 operation. '
         '(b) references {point,line,triangle,tetrahedron,line^2,line^3,triangle*line,line*triangle, WithChildren(every full/empty child mask of line/square/triangle '
         '[thorough: cube, tetrahedron]), trims of line/square/triangle by every linear level set a.x+c, a in {-2..2}^n, c in {-7/4..11/4 step 1/4} with dyadic cuts, '
@@ -38,13 +39,17 @@ ASSUMPTIONS = ['geometries are affine per element; integrands are the polynomial
                'the vertex scheme on trimmed/refined references returns the untrimmed element\'s points by design; nothing is demanded of it',
                'child vertices used for the exact integrals over WithChildren references come from nutils child transforms (checked by C11)',
                'NotImplementedError for a sample construction inside the quantifier (arbitrary nesting) is reported as a violation under an unsupported: key']
-BUDGET_S = {'quick': int(os.environ.get('C09_BUDGET') or 600), 'thorough': int(os.environ.get('C09_BUDGET') or 3600)}
+BUDGET_S = {'quick': 600, 'thorough': 3600}
 
 
-def schedules(tier):
+DEEP_BASES = ['Xg2', 'Yg1', 'Zu2', 'Yb2', 'Xloc', 'Zloc', 'Xtrim', 'Ytrim']   # one per (mesh, points per element, kind of base sample)
+
+
+def schedules(tier, bname):
+    deep = bname in DEEP_BASES
     if tier == 'quick':
-        return [['full'], ['core', 'core', 'core']]
-    return [['full', 'full'], ['full', 'core', 'core'], ['core', 'core', 'core']]
+        return [['full'], ['core', 'core', 'core'] if deep else ['core', 'core']]
+    return [['full', 'full'], ['core', 'core', 'core']] + ([['full', 'core', 'core']] if deep else [])
 
 
 def lmax(tier):
@@ -67,11 +72,9 @@ def shards(tier, seed):
         for i in range(4):
             out.append({'part': 'b', 'what': 'trim3', 'slice': i, 'of': 4})
     # part (a): one shard per (base, schedule, slice of the first-level menu)
-    for sched in schedules(tier):
-        nsl = {1: 1, 2: 8, 3: 4}[len(sched)] if sched[0] == 'full' else 3
-        if sched == ['full', 'core', 'core']:
-            nsl = 12
-        for b in M.BASES:
+    for b in M.BASES:
+        for sched in schedules(tier, b):
+            nsl = {1: 1, 2: 5, 3: 5}[len(sched)] if sched[0] == 'full' else {2: 1, 3: 3 if tier == 'quick' else 2}[len(sched)]
             for i in range(nsl):
                 out.append({'part': 'a', 'base': b, 'levels': sched, 'slice': i, 'of': nsl})
     return out
@@ -177,11 +180,14 @@ def run_b(spec, tier, res):
 
 
 def run_shard(spec, tier, seed):
+    import time
     res = core.ShardResult()
+    t0 = time.process_time()
     if spec['part'] == 'a':
         run_a(spec, tier, res)
     else:
         run_b(spec, tier, res)
+    res.count('process_cpu_ms_part_' + spec['part'], int(1000 * (time.process_time() - t0)))  # true CPU time (cpu_s of the runner is wall time per shard)
     return res
 
 
